@@ -48,14 +48,31 @@ def real_event_nd(ev, max_order=8):
     return [float(x) for x in m.N_events[0]], [float(x) for x in m.D_events[0]]
 
 
-def real_all(evs, max_order):
+_REUSED = {}   # max_order -> (estimator object, history of (first_method, events) it has already served)
+_CALLS = [0]
+
+
+def real_all(evs, max_order, mode="auto"):
+    """mode 'fresh': new estimator objects; 'reuse': one long-lived object per max_order serves both public methods
+    (order of the two alternates), so that state leaking from one call into the next shows up; 'auto' alternates."""
     from sparkx.MultiParticlePtCorrelations import MultiParticlePtCorrelations
-    pl = [_particles(ev) for ev in evs]
-    m = MultiParticlePtCorrelations(max_order=max_order)
+    _CALLS[0] += 1
+    reuse = mode == "reuse" or (mode == "auto" and _CALLS[0] % 2 == 0)
+    corr_first = _CALLS[0] % 4 < 2
+    if reuse:
+        m1, hist = _REUSED.setdefault(max_order, (MultiParticlePtCorrelations(max_order=max_order), []))
+        m2 = m1
+        hist.append(("correlations-then-cumulants" if corr_first else "cumulants-then-correlations", evs))
+    else:
+        m1 = MultiParticlePtCorrelations(max_order=max_order)
+        m2 = MultiParticlePtCorrelations(max_order=max_order)
     with np.errstate(all="ignore"):
-        c = m.mean_pT_correlations(pl, compute_error=False)
-        pl = [_particles(ev) for ev in evs]
-        k = MultiParticlePtCorrelations(max_order=max_order).mean_pT_cumulants(pl, compute_error=False)
+        if corr_first:
+            c = m1.mean_pT_correlations([_particles(ev) for ev in evs], compute_error=False)
+            k = m2.mean_pT_cumulants([_particles(ev) for ev in evs], compute_error=False)
+        else:
+            k = m2.mean_pT_cumulants([_particles(ev) for ev in evs], compute_error=False)
+            c = m1.mean_pT_correlations([_particles(ev) for ev in evs], compute_error=False)
     return [float(x) for x in c], [float(x) for x in k]
 
 
@@ -108,9 +125,9 @@ def exact_cumulants(C):
     return [L[k] * math.factorial(k) for k in range(1, K + 1)]
 
 
-def oracle_check(evs, max_order, rel=1e-6):
+def oracle_check(evs, max_order, rel=1e-6, mode="fresh"):
     """Returns None or (key, what, detail) when the *real code* disagrees with the definition."""
-    c, kap = real_all(evs, max_order)
+    c, kap = real_all(evs, max_order, mode)
     Cex = []
     for k in range(1, max_order + 1):
         n, d = exact_corr(evs, k)
@@ -197,15 +214,24 @@ def search(ctx, budget_s):
             ctx.violation(r[0], r[1], dict(input=case, detail=r[2], how_to_replay="./check C13 --replay <this file>"))
     while time.time() - t0 < budget_s and n < (4000 if ctx.thorough else 400):
         mo = 8 if rng.random() < 0.6 else rng.randint(1, 8)
-        evs = [gen_event(rng, mo, mo + rng.randint(0, 4)) for _ in range(rng.randint(1, 3))]
-        r = oracle_check(evs, mo)
+        nev = rng.choice([1, 2, 2, 3])
+        evs = [gen_event(rng, mo, mo + rng.randint(0, 4)) for _ in range(nev)]
+        r = oracle_check(evs, mo, mode="auto")
         n += 1
         ctx.case(("oracle", mo, tuple(tuple(e) for e in evs)), True)
         if r:
-            evs = shrink(evs, mo, r[0])
-            r = oracle_check(evs, mo)
-            ctx.violation(r[0], r[1], dict(input=dict(events=evs, max_order=mo), detail=r[2],
-                                           how_to_replay="./check C13 --replay <this file>"))
+            fresh = oracle_check(evs, mo, mode="fresh")
+            if fresh is None:
+                # correct on a fresh object, wrong on the re-used one: state leaks between calls
+                hist = _REUSED[mo][1][-3:]
+                ctx.violation("instance-reuse-" + r[0], "on an estimator object that has served earlier calls: " + r[1],
+                              dict(input=dict(max_order=mo, history=[dict(order=o, events=e) for o, e in hist]), detail=r[2],
+                                   how_to_replay="./check C13 --replay <this file>"))
+            else:
+                evs = shrink(evs, mo, fresh[0])
+                r = oracle_check(evs, mo, mode="fresh") or fresh
+                ctx.violation(r[0], r[1], dict(input=dict(events=evs, max_order=mo), detail=r[2],
+                                               how_to_replay="./check C13 --replay <this file>"))
             break
     ctx.cov["oracle_cases"] = n
     ctx.count("oracle", n)
@@ -254,8 +280,15 @@ def replay(ctx, path):
     if not inp:
         print(f"[C13] replay file names a broken obligation, not an input: {d.get('broken')}")
         return 1
-    evs = [[(None if w is None else float(w), float(pt)) for w, pt in e] for e in inp["events"]]
-    r = oracle_check(evs, inp["max_order"])
+    conv = lambda events: [[(None if w is None else float(w), float(pt)) for w, pt in e] for e in events]
+    if "history" in inp:
+        _REUSED.pop(inp["max_order"], None)
+        r = None
+        for h in inp["history"]:
+            _CALLS[0] = 3 if h["order"].startswith("correlations") else 1   # next call: reuse with that order
+            r = oracle_check(conv(h["events"]), inp["max_order"], mode="reuse") or r
+    else:
+        r = oracle_check(conv(inp["events"]), inp["max_order"])
     if r:
         print(f"VIOLATION property=C13 replay={path}")
         print(r[1])
